@@ -37,7 +37,7 @@ class ClearkeyHandler(RequestHandlerBase):
         req = flask.request.json
         try:
             kids = req["kids"]
-        except KeyError:
+        except (KeyError, TypeError):
             return jsonify('kids property missing', 400)
         try:
             kids = list(map(self.base64url_decode, kids))
@@ -54,7 +54,7 @@ class ClearkeyHandler(RequestHandlerBase):
                 "keys": keys,
                 "type": req["type"]
             }
-        except (TypeError, ValueError, KeyError) as err:
+        except (AttributeError, TypeError, ValueError, KeyError) as err:
             result["error"] = f'Error: {err}'
         return jsonify(result)
 
